@@ -81,6 +81,18 @@ func init() {
 		assumptions: commonAssumptions,
 		technique:   "abstract interpretation into residual programs + guard-set protocol rules on the residual ASTs; predicate tabulation",
 	}
+	checks["C19"] = &checkDef{
+		run: runR_C19,
+		explanation: "Engine R on fmap-over-channel, the channel forms of join (slice of channels, channel of channels, variadic select; both channel directions), dup and pipeline: typestate/pairing rules on the residual CFGs and closure tree. T1 every channel made and returned is closed at exactly one site, in a goroutine, outside any loop, on every path of that goroutine (post-dominance; defer accepted); T2 no send reachable after the close in the same goroutine; T3 every other sending goroutine is counted by Add before its go statement (dominance in the spawner), calls Done on every path, and Wait dominates the close, with no spawn reachable after Wait; T4 each receive loop forwards the received item (or f of it) exactly once on every output, unconditionally, without break/return; T5 the combinator's own body performs no blocking channel operation; T6 select form: the loop runs while some input is non-nil over exactly the selected inputs, each case disables only its own input and only when it was found closed, and sends only when it was not; T7 goroutines spawned in a loop do not refer to the loop variables directly; T8 a variable written in a goroutine is not used by another goroutine; pipeline is exactly join(fmap(g, f(a))). Not decided: an exploration of interleavings, global deadlock freedom, buffer-capacity effects, goroutine leaks when consumers stop.",
+		assumptions: append([]string{"Go memory model: channel operations and WaitGroup provide the happens-before edges the rules pair up"}, commonAssumptions...),
+		technique:   "abstract interpretation into residual programs + channel/WaitGroup typestate and pairing rules on go/cfg graphs (dominance, post-dominance, reachability) of the residual closures",
+	}
+	checks["C20"] = &checkDef{
+		run: runR_C20,
+		explanation: "Engine R on do for n = 2, 3 (thorough: up to 4): every argument function is called exactly once and only inside its own goroutine (never on the caller's goroutine); all go statements dominate the first completion receive and none is reachable after it (start-all-before-wait); each goroutine stores its result before its single completion send, which is on every path and carries its own function's error; the caller receives exactly n completions, n = number of goroutines = number of functions; result slots are written by exactly one goroutine and read only after the receive loop; the returned error is assigned only from a received non-nil value and only while it is still nil; no variable written in a goroutine is used by another goroutine (T8). Not decided: scheduler fairness, panicking functions.",
+		assumptions: append([]string{"Go memory model: a send happens before the corresponding receive completes"}, commonAssumptions...),
+		technique:   "abstract interpretation into residual programs + goroutine typestate/pairing rules on go/cfg graphs of the residual closures",
+	}
 	checks["C07"] = &checkDef{
 		run: func(c *Ctx) {
 			runG4(c.Repo, c.Rep)
